@@ -8,7 +8,8 @@ import random
 ID = "C01"
 LEVEL = "exploration"
 BUDGET = {"quick": 50, "thorough": 900}
-FLOOR = {"quick": 3000, "thorough": 30000}
+QUICK_CASES = 1500  # generator items in the quick tier (fixed amount of work; BUDGET is then only a safety cap)
+FLOOR = {"quick": 30000, "thorough": 30000}
 TIMEOUT = 120
 REQUIRED_OBS = ["programs_compared", "tracer_events", "exceptions_agreed", "table_programs"]
 RULE = (
